@@ -231,12 +231,14 @@ func K7() *Entry {
 // K8: naming (json tags, overrides, lower_snake, acronyms with a fixed name).
 func K8() *Entry {
 	m := M("Naming",
-		F("PlainName"), F("lower_snake_name"), F("single"), F("WithDigits2"), F("Tagged", JSON("tagged_name")), F("TaggedOmit", JSON("tagged_omit,omitempty")),
+		F("PlainName"), F("lower_snake_name"), F("single"), F("WithDigits2"),
+		// lower_snake segments that end in digits or are single letters: the attribute name is the proto name itself
+		F("ipv4_addr"), F("sha256_sum", Sc(ir.Bytes)), F("s3_bucket"), F("a_b_c", Sc(ir.Int32)), F("x2_y2_z", Rep()), F("Tagged", JSON("tagged_name")), F("TaggedOmit", JSON("tagged_omit,omitempty")),
 		F("TagDash", JSON("-")), F("TagEmpty", JSON("")), F("TagDashOmit", JSON("-,omitempty")),
 		F("ID", JSON("id")), F("AWSRoleARNs", Rep()), F("DurMP", Sc(ir.Int64)), F("Overridden", JSON("tag_loses")),
 		F("ByTypeKey"), F("Child", MsgT("NamedChild")), F("Children", MsgT("NamedChild"), Rep()),
 	)
-	child := M("NamedChild", F("InnerPlain"), F("inner_snake"), F("InnerTagged", JSON("inner_tag")), F("InnerByPath"), F("InnerByKey"))
+	child := M("NamedChild", F("InnerPlain"), F("inner_snake"), F("tier1_name"), F("v_x"), F("InnerTagged", JSON("inner_tag")), F("InnerByPath"), F("InnerByKey"))
 	f := file("k8", m, child)
 	AutoComments(f)
 	c := BaseConfig("Naming")
